@@ -85,10 +85,17 @@ _MOD = None
 _TIER = None
 
 
+_KNOWN_SIGS = set()
+
+
 def _init_worker(modname, tier):
     global _MOD, _TIER
     _MOD = __import__(modname, fromlist=["x"])
     _TIER = tier
+    _KNOWN_SIGS.clear()
+    for f in load_known().get("findings", []):
+        if f["property"] == _MOD.ID:
+            _KNOWN_SIGS.add(f["signature"])
     # (each worker is pinned to one CPU in _worker: the thread explorer hands a
     # baton between threads of one process, far cheaper on a single core)
 
@@ -106,6 +113,7 @@ def _run_unit(arg):
         "transitions": 0,
         "violations": [],
         "nviol": 0,
+        "nfresh": 0,
         "samples": [],
         "extra": {},
         "error": None,
@@ -136,13 +144,14 @@ def _run_unit(arg):
                 first = (case, d)
                 acc["samples"].append(_sample(mod, case, res))
             last = (case, d)
-            if acc["nviol"] >= 25:
+            if acc["nfresh"] >= 25:
                 # enough counterexamples from this unit: stop early (the run is
                 # then reported as not exhaustive; it exits 1 anyway)
                 acc["truncated"] = True
                 break
             if res.violations:
                 acc["nviol"] += len(res.violations)
+                acc["nfresh"] += sum(1 for sig, _ in res.violations if sig not in _KNOWN_SIGS)
                 if len(acc["violations"]) < 20:
                     replay.append((case, d))
                     for sig, detail in res.violations:
